@@ -255,6 +255,7 @@ func c19(p *core.Program, r *core.Report) {
 	r.Rule(r4, "every index/slice of the record in parseB is behind the pass edge of len(line) < p.bRecordLen with constant columns <= the initial length; p.bRecordLen is written only by the literal and by `stop` under start == bRecordLen+1 && stop >= start (monotone); every extension column stored (ladStop, lodStop, tdsStop) is the very value stored into bRecordLen by a dominating store, so extension columns never exceed the enforced length; parseI's affine indexes 7i+c (c <= 10) stay below its 7n+3 guard; parseH's columns are behind len(header.Value) < 6; line[0] is behind the empty-line case; the H regexp compiles and has the 4 groups parseH indexes", 9)
 	igcIndexGuards(p, r, r4, initLen)
 
+	wholeFixRule(p, r, "fix-appended-whole")
 	utcRule(p, r, "utc-both-sides")
 	sentinelRule(p, r, "index-sentinel-checked", []string{"encoding/igc"}, 1)
 
